@@ -36,6 +36,8 @@ static int c15_main(int argc,char **argv){
       printf("== case %s\n",n>1?tok[1]:"?"); fflush(stdout);
       if(c15_live){ vorbis_info_clear(&c15vi); vorbis_info_clear(&c15vi); }
       vorbis_info_init(&c15vi); c15_live=1;
+    }else if(!strcmp(tok[0],"live")){
+      vf_live("");
     }else if(!c15vi.codec_setup&&strcmp(tok[0],"clear")){
       printf("%s skipped-cleared\n",tok[0]);      /* the info struct was cleared by a failed one-step call */
     }else if((!strcmp(tok[0],"vbr")||!strcmp(tok[0],"initvbr"))&&n>=4){
@@ -85,6 +87,7 @@ static int c15_main(int argc,char **argv){
           while(vorbis_bitrate_flushpacket(&vd,&op)){ npk++; bytes+=op.bytes; if(op.bytes<0)bytes=-1000000000; if(op.e_o_s)eos=1; }
         }
         if(todo<=0&&!eos)break;
+        if(n>=3&&!strcmp(tok[2],"abort")&&done>=total/2)break;   /* walk away in mid-stream: the clear calls must still release everything */
       }
       printf("encode headerout=%s packets=%ld bytes_ok=%d eos=%d ch=%d rate=%ld\n",ovname(rc),npk,bytes>=0,eos,c15vi.channels,c15vi.rate);
       vorbis_comment_clear(&vc); vorbis_block_clear(&vb); vorbis_dsp_clear(&vd);
